@@ -217,6 +217,11 @@ class PropNode(Hooks, Node):
     def lng(self, value):
         self.__dict__["_lng_store"] = value
 
+    @property
+    def k9(self):
+        """Read-only: assignments are refused with AttributeError, also through a link."""
+        return "RO"
+
 
 class FalsyAny(Hooks, AnyNode):
     def __len__(self):
